@@ -667,6 +667,9 @@ func (m *Machine) describe(itf Iface) string {
 
 // goStmt: goroutines are not scheduled in sequential mode; they are recorded.
 func (m *Machine) goStmt(fr *frame, fn Value, args []Value) {
+	if m.goThread(fn, args) {
+		return
+	}
 	if m.cfg("go.inline") {
 		// run the goroutine's function here, to completion or until it blocks
 		// (a goroutine that blocks is simply parked); a panic in it crashes the
